@@ -566,8 +566,8 @@ func c08RunRows(t c08RowsTarget, N int64, cs *c08Case, res *c08Result) {
 				res.fail("early-eof", "op %d read of %d rows at row %d of %d returned %d rows and io.EOF", i, arg, pos, N, cnt)
 			case cnt == 0 && arg > 0 && e != "e":
 				res.fail("no-progress", "op %d read of %d rows at row %d of %d returned 0 rows and no error", i, arg, pos, N)
-			case pos+int64(cnt) > N:
-				res.fail("wrong-rows", "op %d read past the end", i)
+			case cnt > 0 && pos+int64(cnt) > N:
+				res.fail("wrong-rows", "op %d read of %d rows at row %d of %d returned %d rows", i, arg, pos, N, cnt)
 			}
 			pos += int64(cnt)
 		case code == 's':
@@ -678,17 +678,36 @@ func c08OpsTok(ops []string) string {
 	return strings.Join(parts, ",")
 }
 
+// The two places where the model of the current code departs from the
+// specification (both refuted in Properties/C08.v and reported by the
+// predicate of this harness).  When /repo is repaired, flip the constant: the
+// correspondence then runs against the repaired model.
+const (
+	// file.go SeekToRow without offset index: f.index restarts at 1 when the
+	// chunk has a dictionary page (machine lazy1 / noidx1 of the model).
+	c08NoIndexSeekCountsDictionaryPage = true
+	// row_group.go rowGroupRows.Reset leaves r.rowIndex untouched.
+	c08ResetForgetsRowIndex = false
+)
+
 // c08Request is the oracle request that models the case (the faithful model of
 // the current code for page and row-group readers, the position specification
-// for the file readers, whose extra layers are not modelled).
+// for the file readers, whose extra layers are not modelled).  "" = no model:
+// in async mode the background reader executes a seek when it gets to it, so
+// whether a seek issued before the offset index was loaded runs with or
+// without the index depends on the schedule; the two differ only in the
+// page counter of chunks with a dictionary page.
 func c08Request(cs *c08Case, b *c08Built) string {
 	switch cs.Target {
 	case "pages":
 		m := "idx"
 		if cs.Open.SkipIndex {
 			m = "lazy0"
-			if b.dict[cs.RG][cs.Col] {
+			if b.dict[cs.RG][cs.Col] && c08NoIndexSeekCountsDictionaryPage {
 				m = "lazy1"
+				if cs.Open.Async && c08Has(cs.Ops, "l") {
+					return ""
+				}
 			}
 		}
 		return "c08.pages " + m + " " + c08Hex(b.layout[cs.RG][cs.Col]) + " " + c08OpsTok(cs.Ops)
@@ -697,7 +716,11 @@ func c08Request(cs *c08Case, b *c08Built) string {
 		if cs.Open.SkipIndex {
 			m = "noidx0"
 		}
-		return "c08.rows " + m + " 0 " + c08Hex(b.layout[cs.RG][0]) + " " + c08OpsTok(cs.Ops)
+		clears := "0"
+		if c08ResetForgetsRowIndex {
+			clears = "1"
+		}
+		return "c08.rows " + m + " " + clears + " " + c08Hex(b.layout[cs.RG][0]) + " " + c08OpsTok(cs.Ops)
 	default:
 		return "c08.rows spec 0 " + c08Hex([]int64{b.total}) + " " + c08OpsTok(cs.Ops)
 	}
@@ -744,6 +767,9 @@ func c08Check(c *core.Ctx, cs *c08Case) string {
 	}
 	if b != nil && c.HasOracle() {
 		req := c08Request(cs, b)
+		if req == "" {
+			return ""
+		}
 		want := c.Ask(req)
 		got := strings.Join(res.outs, ",")
 		if len(res.outs) == 0 {
